@@ -42,6 +42,7 @@ class World:
         self.na.add_node(self.remote2)
         self.nb.add_node(self.local)
         self.to_node2 = []
+        self.nscribble = 0
         self.node2_noise = True
         if discipline != "inline":
             sx.env().delivery_hook = self._hook
@@ -56,8 +57,15 @@ class World:
     def _deliver(self, origin, cid, data):
         if self.discipline == "interleaved" and self.noise < 2:
             self._noise()
-        frame = sx.mkbytes(sx.items(data))
+        # the bus interface hands its receive buffer to notify() and reuses it for the next frame once the
+        # call has returned (python-can gives each Message its own bytearray; custom back ends feeding
+        # Network.notify need not): consumers that keep the frame must have copied it
+        frame = sx.new_bytearray(sx.items(data))
         (self.nb if origin == "a" else self.na).notify(cid, frame, 1.0)
+        self.nscribble += 1
+        junk = sx.items(sx.fresh_bytes("rxbuf%d" % self.nscribble, len(frame)))
+        for i in range(len(frame)):
+            frame[i] = junk[i]
 
     def _noise(self):
         """unrelated bus traffic in front of a delivery: a frame with an arbitrary id that is none of this
@@ -230,8 +238,12 @@ def record_member(discipline):
     w = World(discipline)
     v = sx.fresh_int("v", -(1 << 15), (1 << 15) - 1)
     v2 = sx.fresh_int("v2", -(1 << 31), (1 << 31) - 1)
+    v3 = sx.fresh_int("v3", 0, 0xFFFFFFFF)
+    v4 = sx.fresh_int("v4", -(1 << 31), (1 << 31) - 1)
     w.remote.sdo["Record.Member"].raw = v
     w.remote.sdo["Array"][2].raw = v2            # dynamically created array member
+    w.remote.sdo["Record.Other"].raw = v3        # siblings written afterwards must not disturb the first ones
+    w.remote.sdo["Array"][1].raw = v4
     it = sx.items(w.local.data_store[0x2200][1])
     sx.prove(len(it) == 2 and sx.all_([it[i] == sx.byte_of(v, i) for i in range(min(2, len(it)))]) is not False,
              "record member stored", "C03/record/stored")
@@ -242,6 +254,8 @@ def record_member(discipline):
     sx.prove(w.local.sdo["Record.Member"].raw == v, "record member on the local side", "C03/record/local")
     sx.prove(w.remote.sdo[0x2300][2].raw == v2, "array member round trip", "C03/array/remote")
     sx.prove(w.local.sdo[0x2300][2].raw == v2, "array member on the local side", "C03/array/local")
+    sx.prove(w.remote.sdo[0x2200][2].raw == v3, "sibling record member", "C03/record/sibling")
+    sx.prove(w.local.sdo["Array"][1].raw == v4, "sibling array member", "C03/array/sibling")
     sx.reach("record")
 
 
